@@ -90,7 +90,8 @@ def cases(seed, count, runs, integer=False, aux=False, locs=("PENINSULA", "BALEA
     for i in range(count):
         fac = {"mode": "loc", "loc": r.choice(list(locs))}
         if r.random() < 0.3:
-            fac["red1"] = [r.choice([0, 500, 1000]), r.choice([0, 1300, 2000]), r.choice([0, 300])]
+            ren, nren = r.choice([(0, 1300), (500, 1300), (1000, 0), (500, 500), (1000, 2000), (0, 2000)])
+            fac["red1"] = [ren, nren, r.choice([0, 300])]     # (a district network always has some primary energy)
         yield {"name": "random-%d-%d" % (seed, i), "src": {"comps": building(r, integer, aux, max_steps)}, "fac": fac,
                "kexp": r.choice([[0, 1], [1, 1], [1, 2], [3, 10]]), "area": r.choice([[1, 1], [5, 2], [200, 1], [1, 2]]),
                "lm": r.random() < 0.5, "runs": runs(r) if callable(runs) else runs}
